@@ -1,6 +1,6 @@
 (* Proofs/WorkerChart: charts() and handleChart: the whole chart object
    meets the specification, is deterministic, counts every report read,
-   refuses a range with a missing day; the goMajorMinor panic class. *)
+   refuses a range with a missing day, and never panics. *)
 From Coq Require Import List NArith ZArith Bool Permutation Sorted Lia.
 From Tele Require Import Lib.Bytes Lib.Calendar Lib.Sort Gen.Consts Model.Worker Proofs.WorkerFacts Proofs.WorkerSpec.
 Import ListNotations.
@@ -9,23 +9,16 @@ Import ListNotations.
 (* configurations the positive theorems cover *)
 
 Definition gover_key (cfg : config) (k : bytes) : Prop :=
-  exists v, In v (cf_goversion cfg) /\ go_major_minor v = Some k.
+  exists v, In v (cf_goversion cfg) /\ go_major_minor v = k.
 
-(* every configured Go version has the goN.M shape goMajorMinor can slice;
-   compareSemver is a strict total order; version.Compare is one on the
-   normalised go versions of this configuration *)
+(* the premises on the two library comparators: compareSemver is a strict
+   total order; version.Compare is one on the normalised go versions of this
+   configuration.  Nothing is required of the configuration itself. *)
 Definition cfg_ok (lts ltg : bytes -> bytes -> bool) (cfg : config) : Prop :=
-  config_wellformed cfg = true /\ order_ok lts (fun _ => True) /\ order_ok ltg (gover_key cfg).
+  order_ok lts (fun _ => True) /\ order_ok ltg (gover_key cfg).
 
 Lemma lex_order_ok D : order_ok bltb D.
 Proof. split; [apply lex_asym | split; [apply lex_trans | apply lex_total]]. Qed.
-
-Lemma wellformed_no_panic cfg b :
-  config_wellformed cfg = true -> In b (cf_goversion cfg) -> go_major_minor b <> None.
-Proof.
-  unfold config_wellformed, malformed_goversion. intros H Hb. rewrite forallb_forall in H.
-  specialize (H b Hb). destruct (go_major_minor b); [discriminate | discriminate].
-Qed.
 
 Lemma lex_req_ok ch buckets : req_ok (mkReq ch buckets false Some bltb).
 Proof.
@@ -34,13 +27,13 @@ Qed.
 
 Lemma program_reqs_ok lts ltg cfg p : cfg_ok lts ltg cfg -> Forall req_ok (program_reqs lts ltg cfg p).
 Proof.
-  intros [Hwf [Hs Hg]]. unfold program_reqs. apply Forall_app. split; [|apply Forall_app; split].
+  intros [Hs Hg]. unfold program_reqs. apply Forall_app. split; [|apply Forall_app; split].
   - destruct (is_toolchain (pc_name p)); constructor; [|constructor].
     split; [intros b _; discriminate|]. exists (fun _ => True). split; [exact Hs | auto].
   - constructor; [apply lex_req_ok|]. constructor; [apply lex_req_ok|]. constructor; [|constructor].
     split; cbn [q_buckets q_norm q_lt].
-    + intros b Hb. apply (wellformed_no_panic cfg b Hwf Hb).
-    + exists (gover_key cfg). split; [exact Hg|]. intros key [b [Hb Hn]]. exists b. auto.
+    + intros b Hb. discriminate.
+    + exists (gover_key cfg). split; [exact Hg|]. intros key [b [Hb Hn]]. cbn in Hn. exists b. split; [exact Hb | congruence].
   - apply Forall_forall. intros q Hq. apply in_map_iff in Hq as [c [<- _]]. apply lex_req_ok.
 Qed.
 
@@ -266,66 +259,70 @@ Proof.
 Qed.
 
 (* ------------------------------------------------------------------ *)
-(* the goMajorMinor panic class *)
+(* totality: with normalisers that never fail (all of charts()'s, after fix
+   48ba0d4) nothing panics -- no premise on the configuration, the reports,
+   the iteration orders, the sort or the comparators *)
 
-Lemma bucket_loop_panics it d pk ch norm wk : forall buckets seen m e,
-  (exists b, In b buckets /\ norm b = None) -> (forall b, In b seen -> norm b <> None) ->
-  bucket_loop it d pk ch norm wk buckets seen m e = None.
+Definition norm_total (q : preq) : Prop := forall b, q_norm q b <> None.
+
+Lemma bucket_loop_some it d pk ch norm wk : (forall b, norm b <> None) ->
+  forall buckets seen m e, bucket_loop it d pk ch norm wk buckets seen m e <> None.
 Proof.
-  induction buckets as [|b0 bs IH]; intros seen m e [b [Hb Hn]] Hseen; [destruct Hb|].
-  cbn [bucket_loop]. destruct (mem_b b0 seen) eqn:Es.
-  - apply mem_b_In in Es. apply IH; [|exact Hseen].
-    destruct Hb as [<-|Hb]; [exfalso; apply (Hseen b0 Es); exact Hn | exists b; auto].
-  - destruct (norm b0) as [key|] eqn:E0; [|reflexivity].
-    apply IH.
-    + destruct Hb as [<-|Hb]; [congruence | exists b; auto].
-    + intros b' [<-|Hb']; [congruence | apply Hseen; exact Hb'].
+  intro Hn. induction buckets as [|b bs IH]; intros seen m e; cbn [bucket_loop]; [discriminate|].
+  destruct (mem_b b seen); [apply IH|].
+  destruct (norm b) eqn:E; [apply IH | exfalso; exact (Hn b E)].
 Qed.
 
-Lemma partition_panics it d pk ch buckets ig norm lt :
-  (forall l, Permutation (ord_weeks it l) l) -> d <> [] -> (exists b, In b buckets /\ norm b = None) ->
-  partition it d pk ch buckets ig norm lt = None.
+Lemma week_loop_some it d pk ch norm buckets : (forall b, norm b <> None) ->
+  forall ws m e en, week_loop it d pk ch norm buckets ws m e en <> None.
 Proof.
-  intros Hw Hd Hb. unfold partition.
-  destruct (ord_weeks it (weeks d)) as [|wk ws] eqn:Ew.
-  - exfalso. destruct d as [|e0 d]; [contradiction|].
-    assert (Hin : In (e_week e0) (weeks (e0 :: d))) by (apply weeks_in; exists e0; split; [left|]; reflexivity).
-    apply (Permutation_in _ (Permutation_sym (Hw _))) in Hin. rewrite Ew in Hin. exact Hin.
-  - cbn [week_loop]. rewrite (bucket_loop_panics it d pk ch norm wk buckets [] [] true Hb); [reflexivity|].
-    intros b [].
+  intro Hn. induction ws as [|wk ws IH]; intros m e en; cbn [week_loop]; [discriminate|].
+  destruct (bucket_loop it d pk ch norm wk buckets [] m e) as [[m' e']|] eqn:E.
+  - apply IH.
+  - exfalso. exact (bucket_loop_some it d pk ch norm wk Hn _ _ _ _ E).
 Qed.
 
-(* a configured Go version of the malformed class makes charts() panic as
-   soon as there is a program to chart and one grouped entry *)
-Theorem malformed_config_panics it lts ltg cfg s e rs :
-  iter_ok it -> order_ok lts (fun _ => True) ->
-  config_wellformed cfg = false -> cf_programs cfg <> [] -> group rs <> [] ->
-  charts it lts ltg cfg s e (group rs) (map r_x rs) = None.
+Lemma run_req_some it d pk q : norm_total q -> run_req it d pk q <> None.
 Proof.
-  intros Hit Hs Hwf Hps Hd. unfold charts.
-  destruct (cf_programs cfg) as [|p ps]; [contradiction|]. cbn [run_programs].
-  assert (Hbad : exists b, In b (cf_goversion cfg) /\ go_major_minor b = None).
-  { unfold config_wellformed in Hwf.
-    destruct (forallb (fun v => negb (malformed_goversion v)) (cf_goversion cfg)) eqn:E; [discriminate|].
-    clear Hwf. induction (cf_goversion cfg) as [|v vs IH]; [discriminate|].
-    cbn [forallb] in E. apply andb_false_iff in E as [E|E].
-    - exists v. split; [left; reflexivity|]. unfold malformed_goversion in E.
-      destruct (go_major_minor v); [discriminate | reflexivity].
-    - destruct (IH E) as [b [Hb Hn]]. exists b. split; [right; exact Hb | exact Hn]. }
-  assert (Hskip : forall q qs, req_ok q -> run_reqs it (group rs) (pc_name p) qs = None ->
-                          run_reqs it (group rs) (pc_name p) (q :: qs) = None).
-  { intros q qs Hq Hn. cbn [run_reqs].
-    destruct (partition_meets_spec it rs (pc_name p) q Hit Hq) as [o [R _]]. rewrite R, Hn. reflexivity. }
-  assert (Hgo : forall qs, run_reqs it (group rs) (pc_name p)
-                  (mkReq c_goversionCounter (cf_goversion cfg) true go_major_minor ltg :: qs) = None).
-  { intro qs. cbn [run_reqs]. unfold run_req. cbn [q_chart q_buckets q_ignore q_norm q_lt].
-    rewrite (partition_panics it (group rs)); [reflexivity | apply Hit | exact Hd | exact Hbad]. }
-  assert (Hpanic : run_reqs it (group rs) (pc_name p) (program_reqs lts ltg cfg p) = None).
-  { unfold program_reqs.
-    assert (Hv : req_ok (mkReq c_versionCounter (pc_versions p) true Some lts)).
-    { split; [intros b _; discriminate|]. exists (fun _ => True). split; [exact Hs | auto]. }
-    destruct (is_toolchain (pc_name p)); cbn [app].
-    - apply Hskip; [apply lex_req_ok|]. apply Hskip; [apply lex_req_ok|]. apply Hgo.
-    - apply Hskip; [exact Hv|]. apply Hskip; [apply lex_req_ok|]. apply Hskip; [apply lex_req_ok|]. apply Hgo. }
-  rewrite Hpanic. reflexivity.
+  intro Hn. unfold run_req, partition.
+  destruct (week_loop it d pk (q_chart q) (q_norm q) (q_buckets q) (ord_weeks it (weeks d)) [] true [])
+    as [[[m e] en]|] eqn:E.
+  - destruct e; discriminate.
+  - exfalso. exact (week_loop_some it d pk _ _ _ Hn _ _ _ _ E).
+Qed.
+
+Lemma run_reqs_some it d pk qs : Forall norm_total qs -> run_reqs it d pk qs <> None.
+Proof.
+  intro H. induction H as [|q qs Hq _ IH]; cbn [run_reqs]; [discriminate|].
+  destruct (run_req it d pk q) eqn:E; [|exfalso; exact (run_req_some it d pk q Hq E)].
+  destruct (run_reqs it d pk qs); [discriminate | contradiction].
+Qed.
+
+Lemma program_reqs_total lts ltg cfg p : Forall norm_total (program_reqs lts ltg cfg p).
+Proof.
+  unfold program_reqs. apply Forall_app. split; [|apply Forall_app; split].
+  - destruct (is_toolchain (pc_name p)); constructor; [|constructor]. intros b; discriminate.
+  - repeat (constructor; [intros b; discriminate|]). constructor.
+  - apply Forall_forall. intros q Hq. apply in_map_iff in Hq as [c [<- _]]. intros b; discriminate.
+Qed.
+
+Theorem charts_never_panics it lts ltg cfg s e d xs : charts it lts ltg cfg s e d xs <> None.
+Proof.
+  unfold charts.
+  assert (H : forall ps, run_programs it lts ltg cfg d ps <> None).
+  { induction ps as [|p ps IH]; cbn [run_programs]; [discriminate|].
+    destruct (run_reqs it d (pc_name p) (program_reqs lts ltg cfg p)) eqn:E;
+      [|exfalso; exact (run_reqs_some it d _ _ (program_reqs_total lts ltg cfg p) E)].
+    destruct (run_programs it lts ltg cfg d ps); [discriminate | contradiction]. }
+  destruct (run_programs it lts ltg cfg d (cf_programs cfg)) eqn:E; [discriminate|].
+  exfalso. exact (H _ E).
+Qed.
+
+Theorem handle_chart_never_panics it lts ltg cfg read start end_ :
+  handle_chart it lts ltg cfg read start end_ <> ChartPanic.
+Proof.
+  unfold handle_chart. destruct (Z.ltb end_ start); [discriminate|].
+  destruct (read_days read start (Z.to_nat (end_ - start + 1))) as [| |rs]; try discriminate.
+  destruct (charts it lts ltg cfg (fmt_date start) (fmt_date end_) (group rs) (map r_x rs)) eqn:E; [discriminate|].
+  exfalso. exact (charts_never_panics _ _ _ _ _ _ _ _ E).
 Qed.
